@@ -23,7 +23,7 @@ from harness import tlc
 from harness.core import Check
 
 TEXT = ["a.md", "/a.md", "d/a.md", "d/", "e/", "/e/", "*.md", "d/*.md", "**/a.md", "d/**", "?.md", "!a.md", "d/e", "e",
-        "!d/a.md", "d/*", "!/a.md", "!e/", "!d/"]
+        "!d/a.md", "d/*", "!/a.md", "!e/", "!d/", "!e", "e/a.md", "*/a.md", "!*.md", "**/e/", "!d/e/"]
 FILES = ["a.md", "b.md", "d/a.md", "d/b.md", "d/e/a.md", "d/e/b.md", "e/a.md"]
 GITENV = dict(os.environ, GIT_CONFIG_GLOBAL="/dev/null", GIT_CONFIG_SYSTEM="/dev/null", GIT_CONFIG_NOSYSTEM="1", HOME="/nonexistent")
 _local = threading.local()
@@ -90,14 +90,15 @@ def cli_listing(cfg):
 
 def run(tier: str) -> int:
     chk = Check("C18", tier, "model_checking")
-    chk.rule = ("cases = configurations of spec/Gitignore.tla: all 400 with <= 1 line per .gitignore (root, d/) plus a seeded sample of the "
-                "94 249 with <= 2 lines (quick 700, thorough 12 000), every (p, q, p) sandwich at the root and seeded three-line configurations; 7 files at depth <= 3; non-trivial = configuration in which git ignores "
+    chk.rule = ("cases = configurations of spec/Gitignore.tla: all 676 with <= 1 line per .gitignore (root, d/) plus a seeded sample of the "
+                "the ~424 000 with <= 2 lines (quick 700, thorough 12 000), every (p, q, p) sandwich at the root and seeded three-line configurations; 7 files at depth <= 3; non-trivial = configuration in which git ignores "
                 "at least one file")
     chk.assumptions = ["git on PATH is the oracle (git ls-files -co --exclude-standard in a scratch repository, global/system config disabled)",
-                       "the universe is 7 files x 19 patterns x 2 ignore files; patterns outside it are not covered"]
+                       "the universe is 7 files x 25 patterns x 2 ignore files; patterns outside it are not covered"]
     if not shutil.which("git"):
         raise tlc.TlcError("git is not available")
-    pat = set(range(1, 20))
+    N = len(TEXT) + 1
+    pat = set(range(1, N))
     res = tlc.run_tlc("Gitignore", tlc.cfg_text(constants=dict(PatIds=pat, MaxLines=1, DoDump=True),
                                                 invariants=["NoReinclusionBelowIgnoredDir", "EmptyMeansAll", "Report"]))
     chk.add_tlc(res)
@@ -111,7 +112,7 @@ def run(tier: str) -> int:
         chk.add_tlc(res2)
     rng = random.Random(chk.seed)
     n2 = 700 if tier == "quick" else 12000
-    lines = [()] + [(i,) for i in range(1, 20)] + [(i, j) for i in range(1, 20) for j in range(1, 18)]
+    lines = [()] + [(i,) for i in range(1, N)] + [(i, j) for i in range(1, N) for j in range(1, N)]
     extra = set()
     while len(extra) < n2:
         c = (rng.choice(lines), rng.choice(lines))
@@ -119,10 +120,10 @@ def run(tier: str) -> int:
             extra.add(c)
     # order-sensitive "sandwiches" (p, q, p) and seeded three-line configurations: last-match-wins depends on keeping every line
     # in order, duplicates included (git re-reads a repeated pattern at its later position)
-    sandwiches = {((a, b, a), ()) for a in range(1, 18) for b in range(1, 18) if a != b} | {((), (a, b, a)) for a in (1, 7, 11, 12) for b in (1, 7, 11, 12, 15) if a != b}
+    sandwiches = {((a, b, a), ()) for a in range(1, N) for b in range(1, N) if a != b} | {((), (a, b, a)) for a in (1, 7, 11, 12) for b in (1, 7, 11, 12, 15) if a != b}
     if tier == "quick":
         sandwiches = {c for k, c in enumerate(sorted(sandwiches)) if (k + chk.seed) % 2 == 0}
-    lines3 = [(i, j, k) for i in range(1, 20) for j in range(1, 18) for k in range(1, 18)]
+    lines3 = [(i, j, k) for i in range(1, N) for j in range(1, N) for k in range(1, N)]
     triples = set()
     while len(triples) < (150 if tier == "quick" else 3000):
         triples.add((rng.choice(lines3), rng.choice(lines)) if rng.random() < 0.5 else (rng.choice(lines), rng.choice(lines3)))
